@@ -30,5 +30,11 @@ func (name Name) ID() uint64 {
 // Release calls to the Names' Pool to release itself. The
 // restrictions and affects of Pool.Release apply.
 func (name *Name) Release() {
+	// Releasing nil or a Name that has been released already is a
+	// no-op.
+	if name == nil || name.pool == nil {
+		return
+	}
+
 	name.pool.Release(name)
 }
